@@ -91,7 +91,7 @@ func c10Guarded(c *Ctx, p *core.Prog, la *lockAnalysis) {
 			r.Violate("guarded-by", id, p.Pos(u.in.Pos()), u.typ.Obj().Name()+"."+u.field+" is "+what+" without "+m+", which guards it elsewhere")
 		}
 	}
-	r.Floor("guarded-by", n, 25, "accesses to guarded fields")
+	r.Floor("guarded-by", n, 15, "accesses to guarded fields")
 }
 
 // atomicTarget names the location an atomic call operates on.
@@ -295,7 +295,7 @@ func c10Pairing(c *Ctx, p *core.Prog, fns []*ssa.Function, la *lockAnalysis) {
 			r.OK("lock-pairing", core.FnName(fn), p.FnPos(fn), "")
 		}
 	}
-	r.Floor("lock-pairing", n, 25, "functions that take a lock")
+	r.Floor("lock-pairing", n, 12, "functions that take a lock")
 }
 
 func c10Globals(c *Ctx, p *core.Prog, fns []*ssa.Function, la *lockAnalysis) {
@@ -524,7 +524,7 @@ func c10Globals(c *Ctx, p *core.Prog, fns []*ssa.Function, la *lockAnalysis) {
 			}
 		}
 	}
-	r.Floor("global", n, 80, "package-level variables")
+	r.Floor("global", n, 50, "package-level variables")
 }
 
 // escapesInit: the closure created in init is stored somewhere (and may run later).
